@@ -1,5 +1,6 @@
 import Tahoe.Base.DrvUtil
 import Tahoe.GridManager.Model
+import Tahoe.StorageClient.Upload
 /-! Driver for C33.  One verifier history per line:
 
     gmv <keys> <server> <ncerts> <cert>… <time>…
@@ -14,7 +15,7 @@ import Tahoe.GridManager.Model
 
   Output: `X:<err>` if creating the verifier raises, else
           `bad=<k>@<msg>/<sig>,…;valid=<n>;<r>,<r>,…` with r ∈ T | F | E:<err>. -/
-open Tahoe.Drv Tahoe.GridManager
+open Tahoe.Drv Tahoe.GridManager Tahoe.StorageClient
 
 def showErr : Err → String
   | .json => "json" | .key => "key" | .type => "type" | .value => "value"
@@ -64,7 +65,45 @@ def parseCert (s : String) : Option (SignedCert SymSig Nat × Parsed Nat) :=
 def showRes : Except Err Bool → String
   | .ok true => "T" | .ok false => "F" | .error e => "E:" ++ showErr e
 
+def hexToNat (s : String) : Option Nat :=
+  s.toList.foldlM (fun acc c => (hexVal c).map (fun v => acc * 16 + v)) 0
+
+/-- the groups `S <id> <connected 0|1> <sha1 hex> <cert>…` of an `offer` line -/
+def splitServers (toks : List String) : List (List String) :=
+  (toks.foldr (fun t acc => if t == "S" then [] :: acc else
+    match acc with
+    | [] => [[t]]
+    | g :: gs => (t :: g) :: gs) [[]]).filter (fun g => !g.isEmpty)
+
+def parseAnnounced (g : List String) :
+    Option (Announced SymSig Nat × List (SignedCert SymSig Nat × Parsed Nat)) :=
+  match g with
+  | i :: c :: h :: certs => do
+      let cps ← certs.mapM parseCert
+      let conn ← (if c == "0" then some false else if c == "1" then some true else none)
+      pure (⟨← i.toNat?, conn, cps.map (·.1), ← hexToNat h⟩, cps)
+  | _ => none
+
+/-- `offer <keys> <preferred> <forUpload 0|1> <time> S <id> <connected> <sha1> <cert>… S …`
+    → ids of `get_servers_for_psi` at that time on the announced servers (`-` if none) -/
+def handleOffer : List String → String
+  | keysT :: prefT :: fuT :: timeT :: rest =>
+    match parseNatList keysT, parseNatList prefT, parseTime timeT, (splitServers rest).mapM parseAnnounced with
+    | some keys, some pref, some now, some srvs =>
+      if fuT != "0" && fuT != "1" then "bad-op" else
+      if rest.head? != some "S" && !rest.isEmpty then "bad-op" else
+      let table := srvs.flatMap (·.2)
+      let parse : Nat → Parsed Nat := fun m =>
+        match table.find? (fun cp => cp.1.certificate == m) with
+        | some cp => cp.2
+        | none => .invalid
+      let out := (serversAt symVerify parse keys pref (fuT == "1") now (srvs.map (·.1))).map (fun s => toString s.id)
+      if out.isEmpty then "-" else ",".intercalate out
+    | _, _, _, _ => "bad-op"
+  | _ => "bad-op"
+
 def handle : List String → String
+  | "offer" :: rest => handleOffer rest
   | "gmv" :: keysT :: serverT :: nT :: rest =>
     match parseNatList keysT, serverT.toNat?, nT.toNat? with
     | some keys, some server, some n =>
